@@ -102,6 +102,10 @@ pub trait Prop: Sync {
             Tier::Thorough => 3600,
         }
     }
+    /// max number of re-executions spent minimising one violation
+    fn shrink_budget(&self) -> u64 {
+        400
+    }
     /// a run that gives no result within this many seconds is killed and reported as a hang
     fn run_timeout_s(&self) -> u64 {
         300
